@@ -229,7 +229,17 @@ def run(ctx):
                 break
             if x[0] == "call" and x[1] and re.search(r"::(max|clamp)$", x[1]["path"]):
                 return True
-            return None if x[0] in ("phi", "arg", "carg", "upvar") else False
+            if x[0] == "phi":
+                # one of several definitions: negative as soon as one computed alternative may be
+                alts = [non_negative(xb, {}, a_) for a_ in x[2]]
+                if any(a_ is False for a_ in alts):
+                    return False
+                return True if alts and all(a_ is True for a_ in alts) else None
+            if x[0] == "call" and (x[1] is None or x[1].get("local") or re.search(r"::(saturating_add|saturating_sub|wrapping_add|wrapping_sub|checked_add|checked_sub|saturating_add_unsigned|unwrap_or|unwrap_or_default)$", x[1]["path"])):
+                return False      # a computed signed offset (len + idx, a helper's result) that nothing clamps at 0
+            if x[0] == "binop" and x[1] in ("Add", "Sub", "AddWithOverflow", "SubWithOverflow"):
+                return False
+            return None           # an operand as read (possibly under a sign test the reader does not follow)
 
         adds = []
         for xb in su.bodies:
